@@ -1,6 +1,6 @@
 """C16 — WaitGroup / OneShotEvent release every waiter exactly when the count hits zero (structural clauses)."""
 from rules import lib_coro, lib_core, lib_exec, lib_order, lib_ready
-from vlib import pathwalk
+from vlib import lin, pathwalk
 
 HEAD = 'yaclib::OneShotEvent::_head'
 COUNT = 'yaclib::detail::AtomicCounter::count'
@@ -25,8 +25,11 @@ class EvWalker(lib_core.CoreWalker):
             eq = truth == (c['op'] == '==')
             if 'kAllDone' in txt:
                 st.events.append(('alldone', eq))
-            elif 'wait_count' in txt:
-                st.events.append(('count-eq-wait', eq))
+            else:
+                d = lin.difference(fn, c['i'])
+                # count == wait_count in any spelling: (count - wait_count) == 0, ready_count != 0 ...
+                if d is not None and d[1].c == 0 and sorted(d[1].t.values()) == [-1, 1] and 'wait_count' in d[1].t:
+                    st.events.append(('count-eq-wait', eq))
 
 
 def run(ctx):
@@ -169,8 +172,9 @@ def run(ctx):
                     ctx.report(ri, key, f.where, 'inputs that were already complete at registration are never '
                                'subtracted from the count (no Done(count - wait_count)): the group never reaches zero')
                 if dn:
-                    a = f.sn(dn[0]['args'][0])
-                    if not (a['k'] == 'BinaryOperator' and a['op'] == '-' and 'wait_count' in f.text(a['ch'][1])):
+                    a = lin.from_ast(f, dn[0]['args'][0])
+                    if not (a is not None and a.c == 0 and a.t.get('wait_count') == -1 and
+                            sorted(a.t.values()) == [-1, 1]):
                         ctx.report(ri, key, f.loc(dn[0]), 'the amount subtracted must be count - wait_count')
         # ---- TimedWaiter
         for f in fb.by_qn('yaclib::OneShotEvent::TimedWait'):
